@@ -43,6 +43,15 @@ def gen_strings(rng, tier):
         st = rng.randrange(2)
         base = rng.choice([0, 0x1000, 0xFFFFFFFF, 0xFFFFFFF0, 0x80000000, rng.randrange(1 << 32)])
         cases.append(["strings %d %d %d 0x%x %s" % (ml, mln, st, base, hx(bs))])
+    # runs around the 8-bit and 16-bit boundaries of the length (thresholds are u8: a length compared
+    # after truncation to u8 / u16 drops or invents strings only here)
+    for ln in (254, 255, 256, 257, 258, 259, 300, 356, 511, 512, 513, 515, 1024, 1027, 65535, 65536, 65537, 65539):
+        if tier == "quick" and ln > 2000 and ln not in (65536, 65537, 65539):
+            continue
+        for (ml, mln, st) in ((6, 3, 1), (6, 3, 0), (200, 200, 0), (1, 1, 0), (255, 255, 0), (4, 2, 0)):
+            for term in (b"\x00", b"\x80", b""):
+                body = bytes(0x41 + (i % 26) for i in range(ln))
+                cases.append(["strings %d %d %d 0x1000 %s" % (ml, mln, st, hx(b"\x01" + body + term))])
     # thresholds of zero (outside the theorem's hypothesis; compared against the model only)
     for _ in range(40):
         bs = bytes(rng.choice([0x41, 0, 0x80]) for _ in range(rng.randrange(0, 10)))
